@@ -30,6 +30,13 @@ impl Endpoints {
     ensures final(self).log@ == old(self).log@.push(Ev::Offer { uri: uri@, frames: frames@ })
   { unimplemented!() }
 }
+impl Endpoints {
+  // R8: conn_iface.send_message(msg).await on the connection just looked up (the single-frame fan-out)
+  #[verifier::external_body]
+  pub async fn verif_offer_one(&mut self, c: &ConnRef, uri: &String, msg: Msg) -> (r: Result<(), ZmqError>)
+    ensures final(self).log@ == old(self).log@.push(Ev::Offer { uri: uri@, frames: seq![msg] })
+  { unimplemented!() }
+}
 pub struct Distributor { pub x: u8 }
 impl Distributor {
   pub uninterp spec fn peers(&self) -> Seq<Seq<char>>;      // the registered peers at the moment of the snapshot, in the snapshot's order
@@ -92,6 +99,31 @@ parts = [
      extra=[
        ("R8", re.compile(r"let conn_iface_opt: Option<Arc<dyn ISocketConnection>> = \{.*?\n      \};", re.S), "let conn_iface_opt: Option<ConnRef> = core_state_accessor.verif_lookup(&uri_to_send);", 1),
        ("R8", "conn_iface.send_multipart(frames_for_this_peer).await", "core_state_accessor.verif_offer(&conn_iface, &uri_to_send, frames_for_this_peer).await", 1),
+       ("R5", "Err(e @ ZmqError::ConnectionClosed) => {", "Err(ZmqError::ConnectionClosed) => { let e = ZmqError::ConnectionClosed;", 1),
+     ]),
+  Fn(DI, "send_to_all", impl=r"impl\s+Distributor\b", emit_impl="impl Distributor",
+     sig_sub=[("core_state_accessor: &parking_lot::RwLock<CoreState>", "core_state_accessor: &mut Endpoints")],
+     attrs=["#[verifier::loop_isolation(false)]"],
+     ensures=[
+       ("C12:every_registered_peer_is_offered_the_whole_message_exactly_once_in_order_whatever_happened_with_the_peers_before_it",
+        "exists|found: Seq<bool>| found.len() == self.peers().len() && final(core_state_accessor).log@ =~= old(core_state_accessor).log@ + trace(self.peers(), found, seq![*msg])"),
+       ("C12:would_block_or_timeout_of_a_subscriber_is_never_reported_as_a_failure", "r matches Err(v) ==> no_flow_control_error(v@)"),
+     ],
+     loops={0: {"desugar_owned": True, "invariant": [
+       ("C12:fan_out_loop_follows_the_snapshot_in_order", "fnd.len() == vx_i0 && done =~= views(vx_o0).subrange(0, vx_i0 as int) && core_state_accessor.log@ =~= old(core_state_accessor).log@ + trace(done, fnd, seq![*msg])"),
+       ("C12:no_flow_control_error_collected_so_far", "no_flow_control_error(failed_uris@)"),
+     ]}},
+     hints=[
+       ("empty", "re:if uris_to_send_to\\.is_empty\\(\\) \\{", 0, "before", "proof { assert(uris_to_send_to@.len() == 0 ==> self.peers() =~= Seq::<Seq<char>>::empty()); assert(trace(Seq::<Seq<char>>::empty(), Seq::<bool>::empty(), seq![*msg]) =~= Seq::<Ev>::empty()); assert(core_state_accessor.log@ + Seq::<Ev>::empty() =~= core_state_accessor.log@); }"),
+       ("init", "@loop_before:0", 0, "", "let ghost mut fnd: Seq<bool> = Seq::empty(); let ghost mut done: Seq<Seq<char>> = Seq::empty(); proof { assert(views(uris_to_send_to@).subrange(0, 0) =~= Seq::<Seq<char>>::empty()); }"),
+       ("C12:every_peer_of_the_snapshot_was_visited_before_the_result_is_built", "re:if failed_uris\\.is_empty\\(\\) \\{", 0, "before", "proof { assert(done =~= self.peers()); }"),
+       ("looked", "re:if let Some\\(conn_iface\\) = conn_iface_opt \\{", 0, "before",
+        "let ghost was = conn_iface_opt is Some;\n"
+        "      proof { assert(views(vx_o0).subrange(0, vx_i0 as int) =~= done.push(uri_to_send@)); lemma_trace_step(done, fnd, seq![*msg], uri_to_send@, was); fnd = fnd.push(was); done = done.push(uri_to_send@); }"),
+     ],
+     extra=[
+       ("R8", re.compile(r"let conn_iface_opt: Option<Arc<dyn ISocketConnection>> = \{.*?\n      \};", re.S), "let conn_iface_opt: Option<ConnRef> = core_state_accessor.verif_lookup(&uri_to_send);", 1),
+       ("R8", "conn_iface.send_message(msg_clone).await", "core_state_accessor.verif_offer_one(&conn_iface, &uri_to_send, msg_clone).await", 1),
        ("R5", "Err(e @ ZmqError::ConnectionClosed) => {", "Err(ZmqError::ConnectionClosed) => { let e = ZmqError::ConnectionClosed;", 1),
      ]),
 ]
